@@ -287,6 +287,12 @@ VSlerp8Ok(ev) ==
                           \* the length is interpolated linearly: 8 l_j = (8 - j) la + j lb
                           /\ DyNear(DyScale(l[j + 1], 3), DyAdd(DyMul(DyInt(8 - j), la), DyMul(DyInt(j), lb)), DyMul(DyScale(t, 3), DyAdd(la, lb)))
 
+\* rotate_towards by ANY step (partial, negative, beyond; parallel and exactly opposite operands included): finite, length preserved
+RotLenOk(ev) ==
+    LET p == P(ev) a == DV(ev.a) IN
+    /\ AllFinite(ev.got)
+    /\ DyNear(VSq(DV(ev.got)), VSq(a), DyMul(DyPow2(8 - p), VSq(a)))
+
 Ok(ev) ==
     CASE ev.op = "normalize" -> NormalizeOk(ev)
       [] ev.op = "angle_parallel" -> AngleParallelOk(ev)
@@ -294,6 +300,7 @@ Ok(ev) ==
       [] ev.op = "slerp8" -> Slerp8Ok(ev)
       [] ev.op = "vslerp8" -> VSlerp8Ok(ev)
       [] ev.op = "rot_reach" -> RotReachOk(ev)
+      [] ev.op = "rot_len" -> RotLenOk(ev)
       [] ev.op = "view" -> ViewOk(ev)
       [] ev.op = "euler" -> EulerOk(ev)
       [] ev.op \in {"length", "distance", "length_recip", "project_onto", "reject_from"} -> SqrtRelOk(ev)
